@@ -171,7 +171,7 @@ UnpackB(T, cx, j) ==
          IF ~IsOk(ix) THEN ix
          ELSE IF Len(ix[2]) < Len(T[2]) THEN Err("short")
          ELSE Wrap("tuple", Combine([i \in DOMAIN T[2] |-> Unpack(T[2][i], ElemCx(cx), ix[2][i])]))
-    [] T[1] = "utuple" ->
+    [] T[1] \in {"utuple", "ustar"} ->
          LET ix == IndexableOf(j) p == Len(T[2]) q == Len(T[4]) IN
          IF ~IsOk(ix) THEN ix
          ELSE LET n == Len(ix[2]) IN
@@ -239,7 +239,7 @@ Conforms(T, v) ==
     [] T[1] \in {"set", "aset"} -> v[1] = "set" /\ \A e \in v[2] : Conforms(T[2], e)
     [] T[1] = "frozenset" -> v[1] = "frozenset" /\ \A e \in v[2] : Conforms(T[2], e)
     [] T[1] = "tuple" -> v[1] = "tuple" /\ Len(v[2]) = Len(T[2]) /\ \A i \in DOMAIN T[2] : Conforms(T[2][i], v[2][i])
-    [] T[1] = "utuple" -> v[1] = "tuple" /\ Len(v[2]) >= Len(T[2]) + Len(T[4])
+    [] T[1] \in {"utuple", "ustar"} -> v[1] = "tuple" /\ Len(v[2]) >= Len(T[2]) + Len(T[4])
     [] T[1] \in {"dict", "mapping", "mmapping"} -> v[1] = "dict" /\ \A i \in DOMAIN v[2] : Conforms(T[2], v[2][i][1]) /\ Conforms(T[3], v[2][i][2])
     [] T[1] = "odict" -> v[1] = "OrderedDict" /\ \A i \in DOMAIN v[2] : Conforms(T[2], v[2][i][1]) /\ Conforms(T[3], v[2][i][2])
     [] T[1] = "ddict" -> v[1] = "defaultdict" /\ \A i \in DOMAIN v[2] : Conforms(T[2], v[2][i][1]) /\ Conforms(T[3], v[2][i][2])
